@@ -110,7 +110,13 @@ class AstRewriter(ast.NodeTransformer):
         orig_to_copy_mapping = mapper(node)
         last_tracer = self._tracers[-1]
         old_bookkeeper = last_tracer.ast_bookkeeper_by_fname.get(self._path)
-        module_id = id(node) if self._module_id is None else self._module_id
+        # the line table is keyed by the registered copy, which lives as long as its entries do (the tree
+        # handed in can die right after compilation, and its address be taken by the next tree)
+        module_id = (
+            id(orig_to_copy_mapping[id(node)])
+            if self._module_id is None
+            else self._module_id
+        )
         new_bookkeeper = last_tracer.ast_bookkeeper_by_fname[self._path] = (
             AstBookkeeper.create(self._path, module_id)
         )
@@ -121,7 +127,7 @@ class AstRewriter(ast.NodeTransformer):
         ):
             # a single function of the file is being rewritten (the `instrumented` decorator): the
             # entries registered for the file so far belong to other functions that can still run
-            last_tracer.remove_bookkeeping(old_bookkeeper, module_id)
+            last_tracer.remove_bookkeeping(old_bookkeeper, old_bookkeeper.module_id)
         BookkeepingVisitor(
             new_bookkeeper.ast_node_by_id,
             new_bookkeeper.containing_ast_by_id,
